@@ -2,6 +2,7 @@ import N0Verif.Proofs.FindAll
 import N0Verif.Proofs.FindAllDesc
 import N0Verif.Proofs.FindAllList
 import N0Verif.Proofs.FindAllTail
+import N0Verif.Proofs.FindAllTailLists
 import N0Verif.Props.C01
 /-!
 # C19 — dictionary findall returns complete, resolvable, history-independent results
@@ -877,5 +878,66 @@ example : (findfirstTop 20 fresh exList ['n'] false).1 = .ok (some (['/', '/', '
 example : (findfirstTop 20 fresh exList ['z'] true).1 = .error .IndexError := by decide
 example : (findfirstTop 20 fresh exList ['z'] false).1 = .ok Option.none := by decide
 example : (findfirstTop 20 fresh exList ['[', '2', ']'] true).1 = .ok (some (['/', '/', '[', '2', ']'], .dict .n0 [])) := by decide
+
+
+/-! ## two-step tails with lists under `name` (`Proofs/FindAllTailLists.lean`) -/
+
+/-- **`'//*/name/sub'`, lists under `name` included.**  On a dict root with `KeysOkV`, `ContOkV` (no
+hypothesis about what the entries called `name` hold) the search returns, for every fuel above a
+bound, **exactly** the pairs of the DFS reference `tailOfL sub (descV name root)`: below every node
+called `name` (any depth, document order) the entry `sub` of the node itself when it is a dictionary,
+of every element in order when it is a list (lists of lists recursively: `subV`), nothing below a
+final element — under the canonical xpaths `…/name[i]/sub`, `…/name[i][j]/sub`. -/
+theorem C19_descendant_tail_lists (cls : Cls) (kvs : List (Str × Val)) (name sub : Str)
+    (hn : PlainKey name) (hs : PlainKey sub)
+    (hk : KeysOkV (.dict cls kvs)) (hc : ContOkV (.dict cls kvs)) (re : Bool := true) :
+    ∃ n, ∀ fuel ≥ n,
+      (findallTop fuel fresh (.dict cls kvs) (['/', '/', '*', '/'] ++ name ++ ['/'] ++ sub) re).res =
+        .ok (some ((tailOfL sub (descV name (.dict cls kvs))).map (fun pv => (slash ++ renderPos pv.1, pv.2)))) := by
+  obtain ⟨n, hN⟩ := fatl_descendant re hn hs cls kvs hk hc
+  refine ⟨n, fun fuel hf => ?_⟩
+  show (fa re fuel _ (tokens _) [] []).res = _
+  rw [fat_tokens hn hs]
+  exact hN fuel hf
+
+/-- the reference lists no position twice and only plain positions (so no key is reported twice) -/
+theorem C19_descendant_tail_lists_distinct (t : Val) (name sub : Str) (hs : PlainKey sub) (hk : KeysOkV t) :
+    (tailOfL sub (descV name t)).Pairwise (fun a b => a.1 ≠ b.1) ∧ ∀ pv ∈ tailOfL sub (descV name t), PlainPos pv.1 :=
+  ⟨fatl_tail_distinct name sub _ ((fad_desc_distinct name).1 _ hk).1
+      (fun b hb => (((fad_desc_mem name).1 _ hk b.1 b.2).1 hb).1),
+    fatl_tail_plain hs _ (fad_desc_plain hk)⟩
+
+/-- when no node called `name` is a list the reference is the one of `C19_descendant_tail` -/
+theorem C19_descendant_tail_lists_agrees (sub : Str) (l : List (Pos × Val)) (h : ∀ b ∈ l, ∀ c xs, b.2 ≠ .list c xs) :
+    tailOfL sub l = tailOf sub l := fatl_tailOfL_eq sub l h
+
+/-- a tree with lists under `name`: a list of dictionaries (one without `sub`) and a nested list, a
+dictionary, and a list directly in the root -/
+def exTailL : Val :=
+  .dict .n0 [(['x'], .dict .n0 [(['n', 'a', 'm', 'e'], .list .n0 [.dict .n0 [(['s', 'u', 'b'], .str ['a'])],
+                .dict .n0 [(['o'], .int 1)], .list .n0 [.dict .n0 [(['s', 'u', 'b'], .str ['b'])]]])]),
+             (['y'], .dict .n0 [(['n', 'a', 'm', 'e'], .dict .n0 [(['s', 'u', 'b'], .str ['c'])])]),
+             (['n', 'a', 'm', 'e'], .list .n0 [.dict .n0 [(['s', 'u', 'b'], .str ['d'])]])]
+
+-- non-vacuity of `C19_descendant_tail_lists`: the hypotheses hold for `exTailL`, the reference is not empty, and the
+-- model's answer is what the real code returns (`{'//name[0]/sub': 'd', '//x/name[0]/sub': 'a', '//x/name[2][0]/sub': 'b',
+-- '//y/name/sub': 'c'}`, both modes)
+example : KeysOkV exTailL ∧ ContOkV exTailL := by
+  have pk : ∀ k : Str, k ≠ [] → (∀ c ∈ k, plainChar c = true) → k ≠ ['.', '.'] → PlainKey k :=
+    fun k h1 h2 h3 => ⟨h1, h2, h3⟩
+  simp only [exTailL, KeysOkV, KeysOkK, KeysOkL, ContOkV, ContOkK, ContOkL, lookup, FindAll.isContainer]
+  refine ⟨?_, by decide⟩
+  repeat' apply And.intro
+  all_goals first | exact pk _ (by decide) (by decide) (by decide) | trivial | decide
+example : tailOfL ['s', 'u', 'b'] (descV ['n', 'a', 'm', 'e'] exTailL) =
+    [([.key ['n', 'a', 'm', 'e'], .idx 0, .key ['s', 'u', 'b']], .str ['d']),
+     ([.key ['x'], .key ['n', 'a', 'm', 'e'], .idx 0, .key ['s', 'u', 'b']], .str ['a']),
+     ([.key ['x'], .key ['n', 'a', 'm', 'e'], .idx 2, .idx 0, .key ['s', 'u', 'b']], .str ['b']),
+     ([.key ['y'], .key ['n', 'a', 'm', 'e'], .key ['s', 'u', 'b']], .str ['c'])] := by
+  simp [exTailL, descV, descK, descL, lookup, tailOfL, tl1L, subV, subL]
+example : ∀ re, (findallTop 20 fresh exTailL "//*/name/sub".toList re).res =
+    .ok (some [("//name[0]/sub".toList, .str ['d']), ("//x/name[0]/sub".toList, .str ['a']),
+      ("//x/name[2][0]/sub".toList, .str ['b']), ("//y/name/sub".toList, .str ['c'])]) := by
+  decide +kernel
 
 end N0.C19
